@@ -167,6 +167,15 @@ func (p *Prog) ifaceSpec(t types.Type, m *types.Func) *FuncSpec {
 			if s, ok := p.db.Ifaces[k+"."+m.Name()]; ok {
 				return s
 			}
+			if s, ok := p.db.Ifaces[k+".*"]; ok {
+				return s
+			}
+		}
+	}
+	// wildcard: every method of an observer interface
+	if k := namedKey(t); k != "" {
+		if s, ok := p.db.Ifaces[k+".*"]; ok {
+			return s
 		}
 	}
 	// any declared interface contract whose interface the static type implements
@@ -466,4 +475,31 @@ func (vc *VC) applyGhostSets(spec *FuncSpec, env *Env, pos token.Pos) {
 	for _, u := range ups {
 		vc.store(u.loc, u.val, pos)
 	}
+}
+
+// findFunc looks a function up by its contract key; methods of instantiated
+// generic types print their type arguments a second time after the method name.
+func (p *Prog) findFunc(key string) *ssa.Function {
+	if fn := p.funcs[key]; fn != nil {
+		return fn
+	}
+	if strings.HasPrefix(key, "(") {
+		if i := strings.Index(key, "["); i >= 0 {
+			if j := strings.Index(key[i:], "])."); j >= 0 {
+				targs := key[i : i+j+1]
+				if fn := p.funcs[key+targs]; fn != nil {
+					return fn
+				}
+			}
+		}
+	}
+	return nil
+}
+
+func (p *Prog) relPos0(ps token.Position) string {
+	f := ps.Filename
+	if rel, err := filepath.Rel(p.repo, f); err == nil && !strings.HasPrefix(rel, "..") {
+		f = rel
+	}
+	return fmt.Sprintf("%s:%d", f, ps.Line)
 }
